@@ -71,3 +71,14 @@ def c06_mask_values_int(v, spec):
     bad = v.get('badvars', [])
     import numpy as np
     return bool(bad) and all(np.dtype(dt).kind in 'iu' for _, dt, _ in bad)
+
+
+@pred('C17-single-level-nan')
+def c17_single_level(v, spec):
+    # getinterpweights with ONE source level returns NaN weights (scipy's
+    # extrapolating interp1d on a single point) even when the target equals
+    # the source, where the identity [[1]] is the only sensible answer.
+    pr = v.get('problems') or []
+    return (v['kind'].startswith('law-broken:') and bool(pr) and
+            all('single source level, target == source' in p or
+                ('constant field became nan' in p) for p in pr))
